@@ -33,11 +33,46 @@ def apply_patch(patch, cwd):
     return rc, out
 
 
+def detect_only(prop, letter, extra):
+    """Re-runs the checks against an already confirmed seed stored under seeded/<PROP>-<letter>/ of this checkout and
+    records the outcome as meta['final_rerun'] (the seed's first-run record is left as it is)."""
+    dst = os.path.join(V, 'seeded', '%s-%s' % (prop, letter))
+    patch = os.path.join(dst, 'patch.diff')
+    meta = json.load(open(os.path.join(dst, 'meta.json')))
+    rc, out = sh('git -C %s status --porcelain' % REPO)
+    if out.strip():
+        print('%s is not clean; refusing to apply' % REPO)
+        return 3
+    detections = {}
+    rc, out = apply_patch(patch, REPO)
+    if rc != 0:
+        print('patch does not apply', out[-300:])
+        return 2
+    try:
+        sh('cargo build --offline', cwd=REPO)
+        for c in [prop] + [x for x in extra if x != prop]:
+            t0 = time.time()
+            rc, out = sh('./check %s --tier quick' % c, cwd=V, timeout=3600)
+            lines = [l for l in out.splitlines() if l.startswith('VIOLATION') or 'violation:' in l or 'broken ' in l]
+            detections[c] = {'exit': rc, 'lines': [l[:400] for l in lines[:4]], 'wall_s': round(time.time() - t0, 1)}
+    finally:
+        sh('git -C %s checkout -- .' % REPO)
+        sh('git -C %s clean -fdq src' % REPO)
+    head = sh('git -C %s rev-parse --short HEAD' % V)[1].strip()
+    rh = sh('git -C %s rev-parse --short HEAD' % REPO)[1].strip()
+    meta['final_rerun'] = {'verif_commit': head, 'repo_commit': rh, 'result': {'detections': detections, 'caught_by': [c for c, d in detections.items() if d['exit'] == 1]}}
+    json.dump(meta, open(os.path.join(dst, 'meta.json'), 'w'), indent=1)
+    print(json.dumps(meta['final_rerun'], indent=1))
+    return 0
+
+
 def main():
     prop, letter = sys.argv[1], sys.argv[2]
     extra = []
     if '--checks' in sys.argv:
         extra = sys.argv[sys.argv.index('--checks') + 1].split(',')
+    if '--detect-only' in sys.argv:
+        return detect_only(prop, letter, extra)
     src = '/tmp/mut/%s/out/%s' % (prop, letter)
     patch = os.path.join(src, 'patch.diff')
     demos = sorted(glob.glob(os.path.join(src, 'demo.*')))
